@@ -591,11 +591,19 @@ func (r *resolver) stmt(stmt syntax.Stmt) {
 			id := stmt.To[i]
 			if r.options.LoadBindsGlobally {
 				r.bind(id)
-			} else if r.bindLocal(id) && !r.options.GlobalReassign {
-				// "Global" in AllowGlobalReassign is a misnomer for "toplevel".
-				// Sadly we can't report the previous declaration
-				// as id.Binding may not be set yet.
-				r.errorf(id.NamePos, "cannot reassign top-level %s", id.Name)
+			} else {
+				// The name may already be bound by a global
+				// declaration, as in: x = 1; load("m", "x").
+				global, isGlobal := r.globals[id.Name]
+				if r.bindLocal(id) && !r.options.GlobalReassign {
+					// "Global" in AllowGlobalReassign is a misnomer for "toplevel".
+					// Sadly we can't report the previous declaration
+					// as id.Binding may not be set yet.
+					r.errorf(id.NamePos, "cannot reassign top-level %s", id.Name)
+				} else if isGlobal && !r.options.GlobalReassign {
+					r.errorf(id.NamePos, "cannot reassign %s %s declared at %s",
+						global.Scope, id.Name, global.First.NamePos)
+				}
 			}
 		}
 
